@@ -78,6 +78,100 @@ type caseT struct {
 	Name      int `json:"name"`
 	ID        int `json:"id,omitempty"`        // index into ids
 	AnyProto  int `json:"any_proto,omitempty"` // != 0: client protocol number, taken from version.Versions (Proto is ignored)
+	// Shape != "": the profile is generated so that the forwarded payload (without the 32-byte MAC) is
+	// SizeTarget+SizeDelta bytes long (Props is ignored; Name is ignored for shape max-name+big-value)
+	Shape      string `json:"shape,omitempty"` // one-big-value | many-small | long-signature | max-name+big-value
+	SizeTarget int    `json:"size_target,omitempty"`
+	SizeDelta  int    `json:"size_delta,omitempty"`
+}
+
+// ---- size classes: payload lengths around plausible buffer boundaries ----
+
+var (
+	sizeTargets = []int{512, 1024, 2048, 4096, 8192, 16384, 32768}
+	// the payload itself and payload+MAC (32 bytes) on either side of the boundary
+	sizeDeltas = []int{-33, -32, -31, -1, 0, 1}
+	sizeShapes = []string{"one-big-value", "many-small", "long-signature", "max-name+big-value"}
+)
+
+func varintLen(n int) int {
+	l := 1
+	for n >= 0x80 {
+		n >>= 7
+		l++
+	}
+	return l
+}
+func strLen(s string) int { return varintLen(len(s)) + len(s) }
+
+// refPayloadLen is the length of the forwarded payload by the documented layout (independent of the code under test).
+func refPayloadLen(ver int, addr, name string, props []profile.Property, k *fakeKey) int {
+	n := varintLen(ver) + strLen(addr) + 16 + strLen(name) + varintLen(len(props))
+	for _, p := range props {
+		n += strLen(p.Name) + strLen(p.Value) + 1
+		if p.Signature != "" {
+			n += strLen(p.Signature)
+		}
+	}
+	if ver == ref.WithKey || ver == ref.WithKeyV2 {
+		n += 8 + varintLen(len(k.pub)) + len(k.pub) + varintLen(len(k.sig)) + len(k.sig)
+		if ver == ref.WithKeyV2 {
+			n++
+			if k.holder != uuid.Nil {
+				n += 16
+			}
+		}
+	}
+	return n
+}
+
+func filler(n int) string {
+	if n < 0 {
+		n = 0
+	}
+	b := make([]byte, n)
+	for i := range b {
+		b[i] = byte('A' + (i*7+i/26)%26)
+	}
+	return string(b)
+}
+
+// sizedProfile returns name and properties such that the payload is target bytes long (exact == false when a
+// VarInt length prefix makes that length unreachable; the nearest length is used then).
+func sizedProfile(shape string, target, ver int, addr, baseName string, k *fakeKey) (name string, props []profile.Property, exact bool) {
+	name = baseName
+	build := func(f int) []profile.Property {
+		switch shape {
+		case "one-big-value":
+			return []profile.Property{{Name: "textures", Value: filler(f), Signature: "c2ln"}}
+		case "long-signature":
+			return []profile.Property{{Name: "textures", Value: "dmFsdWU=", Signature: filler(f + 1)}}
+		case "max-name+big-value":
+			return []profile.Property{{Name: "textures", Value: filler(f)}}
+		}
+		// many-small: properties of 12 bytes each, the last one takes up the slack
+		var ps []profile.Property
+		for i := 0; len(ps) < 2600 && (i+2)*12 < f; i++ {
+			ps = append(ps, profile.Property{Name: fmt.Sprintf("p%04d", i), Value: "vwxyz"})
+		}
+		slack := f - len(ps)*12
+		return append(ps, profile.Property{Name: "last", Value: filler(slack)})
+	}
+	if shape == "max-name+big-value" {
+		name = names[3]
+	}
+	f := target - refPayloadLen(ver, addr, name, build(0), k)
+	for i := 0; i < 6; i++ {
+		if f < 0 {
+			f = 0
+		}
+		d := target - refPayloadLen(ver, addr, name, build(f), k)
+		if d == 0 {
+			return name, build(f), true
+		}
+		f += d
+	}
+	return name, build(f), false
 }
 
 var (
@@ -121,16 +215,28 @@ func check(r *vrt.R, c caseT) {
 	if c.AnyProto != 0 {
 		clientProto, clientName = proto.Protocol(c.AnyProto), fmt.Sprintf("protocol %d", c.AnyProto)
 	}
-	pl := &fakePlayer{prof: profile.GameProfile{ID: id, Name: names[c.Name], Properties: propSets[c.Props]}, proto: clientProto}
+	want := ref.VelocityVersion(c.Requested, int(clientProto), kc.rev)
+	cProps, cName := propSets[c.Props], names[c.Name]
+	if c.Shape != "" {
+		var exact bool
+		cName, cProps, exact = sizedProfile(c.Shape, c.SizeTarget+c.SizeDelta, want, ips[c.IP], names[c.Name], kc.key)
+		r.Class(fmt.Sprintf("payload-size:~%d", c.SizeTarget))
+		r.Class("payload-shape:" + c.Shape)
+		if !exact && refPayloadLen(want, ips[c.IP], cName, cProps, kc.key) > c.SizeTarget+c.SizeDelta+8 {
+			r.Class("payload-size:target-below-the-minimum-for-this-version(key data)")
+		} else if !exact {
+			r.Class("payload-size:not-exact(varint prefix)")
+		}
+	}
+	pl := &fakePlayer{prof: profile.GameProfile{ID: id, Name: cName, Properties: cProps}, proto: clientProto}
 	if kc.key != nil {
 		pl.key = kc.key
 	}
 	secret := secrets[c.Secret]
-	want := ref.VelocityVersion(c.Requested, int(clientProto), kc.rev)
 	r.Eval(1)
 	r.Class(fmt.Sprintf("expected-version:%d", want))
 	desc := func() string {
-		return fmt.Sprintf("requested=%d client=%s key=%s props=%d secret#%d ip=%s name=%q uuid=%s", c.Requested, clientName, kc.name, c.Props, c.Secret, ips[c.IP], names[c.Name], id)
+		return fmt.Sprintf("requested=%d client=%s key=%s props=%d secret#%d ip=%s name=%q uuid=%s shape=%q payload=%d%+d", c.Requested, clientName, kc.name, c.Props, c.Secret, ips[c.IP], cName, id, c.Shape, c.SizeTarget, c.SizeDelta)
 	}
 	var data []byte
 	var err error
@@ -162,13 +268,18 @@ func check(r *vrt.R, c caseT) {
 	if got.AddressRaw != ips[c.IP] {
 		r.Violation("CreateForwardingData/address", fmt.Sprintf("%s: parsed address %q", desc(), got.AddressRaw), c)
 	}
-	if got.UUID != [16]byte(id) || got.Name != names[c.Name] {
+	if c.Shape != "" {
+		if wantLen := refPayloadLen(want, ips[c.IP], cName, cProps, kc.key); len(data)-32 != wantLen {
+			r.Violation("CreateForwardingData/payload-length", fmt.Sprintf("%s: %d bytes after the MAC, the layout gives %d", desc(), len(data)-32, wantLen), c)
+		}
+	}
+	if got.UUID != [16]byte(id) || got.Name != cName {
 		r.Violation("CreateForwardingData/identity", fmt.Sprintf("%s: parsed uuid %x name %q", desc(), got.UUID, got.Name), c)
 	}
-	if len(got.Properties) != len(propSets[c.Props]) {
+	if len(got.Properties) != len(cProps) {
 		r.Violation("CreateForwardingData/properties", fmt.Sprintf("%s: parsed %d properties", desc(), len(got.Properties)), c)
 	} else {
-		for i, p := range propSets[c.Props] {
+		for i, p := range cProps {
 			g := got.Properties[i]
 			if g.Name != p.Name || g.Value != p.Value || g.Signature != p.Signature || g.HasSig != (p.Signature != "") {
 				r.Violation("CreateForwardingData/properties", fmt.Sprintf("%s: property %d parsed as %+v, want %+v", desc(), i, g, p), c)
@@ -193,7 +304,7 @@ func check(r *vrt.R, c caseT) {
 	if _, e := ref.Verify(other, data); e == nil {
 		r.Violation("CreateForwardingData/hmac-any-secret", fmt.Sprintf("%s: payload also verifies under a different secret", desc()), c)
 	}
-	if want != ref.Default || len(propSets[c.Props]) > 0 {
+	if want != ref.Default || len(cProps) > 0 {
 		r.Nontrivial(1)
 	}
 }
@@ -263,6 +374,32 @@ func TestVerif(t *testing.T) {
 				}
 			}
 		}
+		// ---- payload SIZE classes: every forwarding version the code can emit, with and without key data ----
+		verCases := []caseT{ // (protocol index, key index, requested)
+			{Proto: 1, Key: 0, Requested: 1}, // v1, no key
+			{Proto: 3, Key: 1, Requested: 1}, // v1, keyed player but key data not requested
+			{Proto: 3, Key: 1, Requested: 2}, // v2 + GenericV1 key data
+			{Proto: 3, Key: 2, Requested: 3}, // v3 + LinkedV2 key data + signer
+			{Proto: 3, Key: 3, Requested: 4}, // v3, no signer
+			{Proto: 6, Key: 0, Requested: 4}, // v4 (lazy session), no key data
+		}
+		for _, vc := range verCases {
+			for _, tg := range sizeTargets {
+				for _, dl := range sizeDeltas {
+					for si, sh := range sizeShapes {
+						n++
+						if !r.Mine(n) {
+							continue
+						}
+						x := vc
+						x.Shape, x.SizeTarget, x.SizeDelta = sh, tg, dl
+						x.Secret, x.IP = si%len(secrets), (si+tg/512)%len(ips)
+						check(r, x)
+					}
+				}
+			}
+		}
+
 		// ---- version negotiation for EVERY protocol the proxy knows (not only the era representatives) ----
 		nv := 0
 		for _, v := range version.Versions {
